@@ -8,12 +8,17 @@ What is proved: the slot arithmetic (`row_exact`, `row_error_lt_one`, `row_in_ra
 `den_dvd_denMax`), the measure bookkeeping (`padding_count`, `measure_at_index`), the `#BPMS` beat rounding
 (`round6_err`, `round6_exact`, `round6_grid48`, `round6_shift_within_row`), the `#SELECTABLE` line read back (`selectable_roundtrip`), a plain string header line read back
 (`string_line_roundtrip`).
-`write_read_exact_partial`: the full statement "denote (write ms) = ms" (same objects, columns, times) is NOT
-proved as one theorem: it is the composition of the pieces above with the timing kernel's offset→beat
+`write_read_exact_partial` (see the end of the file): the full statement "denote (write ms) = ms" is NOT
+proved as one theorem; proved pieces: `last_write_wins`, `cells_no_collision`, `slot_beat_exact`,
+`scanRows_renderRows`, `written_beats_exact`. Originally: it is the composition of the pieces above with the timing kernel's offset→beat
 round trip (`TimingMap.beats`, C10 `snaps_offsets_exact`, not available) and a text-level lemma
 `scanRows (render measures) = measures`; the check evaluates that composition on every case (S).
 -/
 import Reamber.Lemmas.SMDefs
+import Reamber.Lemmas.SMFill
+import Reamber.Lemmas.SMSlot
+import Reamber.Lemmas.SMScan
+import Reamber.Props.C10
 import Reamber.Lemmas.Snapper
 import Mathlib.Tactic.NormNum
 import Reamber.Generated.SMTables
@@ -300,5 +305,67 @@ theorem selectable_roundtrip (b : Bool) (st : MState) :
   cases b <;> simp [metaLine, splitOn, tagSelectable, yesStr, noStr, strip, lstrip, rstrip, isWs, commentTrick,
     stringTags, tagOffset, tagBpms, tagStops, tagSampleStart, tagSampleLength, List.lookup, Except.toOption,
     bind, Except.bind]
+
+/-! ### pieces of `write_read_exact` -/
+
+/-- **Last write wins per cell** (`lines[note.num][note.column] = note.char` over the blank grid): for objects whose
+rows and columns are inside the `den_max × keys` grid, the measure is written, has `den_max` rows of `keys` characters,
+and cell (r, c) holds the character of the last object with that row and column — '0' where there is none. -/
+theorem last_write_wins (keys : Nat) (g : List Slot)
+    (hin : ∀ s ∈ g, rowOf s.num s.den (denMax (g.map (·.den))) < denMax (g.map (·.den)) ∧ s.col < keys) :
+    ∃ G, fillMeasure keys g = .ok G ∧ Rect G (denMax (g.map (·.den))) keys ∧
+      ∀ r c, cellAt G r c = (lastAt (g.map (cellOf (denMax (g.map (·.den))))) r c).getD '0' :=
+  fillMeasure_spec keys g hin
+
+/-- no two objects in one (row, column) ⇒ every object's character is in its own cell and every other cell is '0' -/
+theorem cells_no_collision (keys : Nat) (g : List Slot)
+    (hin : ∀ s ∈ g, rowOf s.num s.den (denMax (g.map (·.den))) < denMax (g.map (·.den)) ∧ s.col < keys)
+    (hnc : (g.map (fun s => ((cellOf (denMax (g.map (·.den))) s).1, (cellOf (denMax (g.map (·.den))) s).2.1))).Nodup) :
+    ∃ G, fillMeasure keys g = .ok G ∧ Rect G (denMax (g.map (·.den))) keys ∧
+      (∀ s ∈ g, cellAt G (rowOf s.num s.den (denMax (g.map (·.den)))) s.col = s.ch) ∧
+      (∀ r c, (∀ s ∈ g, ¬ (rowOf s.num s.den (denMax (g.map (·.den))) = r ∧ s.col = c)) → cellAt G r c = '0') :=
+  fillMeasure_no_collision keys g hin hnc
+
+/-- **The written row denotes the object's beat exactly**: with `measure = beat // 4`, `den = 4·denominator`,
+`num = numerator % den`, in a measure whose row count is divisible by `den` (always when the LCM fits 384,
+`den_dvd_denMax`), row `num·den_max/den` of measure `measure` sits — by the StepMania rule `4m + 4r/R` — at `beat`. -/
+theorem slot_beat_exact (beat : Rat) (col : Nat) (ch : Char) (dmax : Nat) (hpos : 0 < dmax)
+    (hd : (slotOf beat col ch).den ∣ dmax) :
+    4 * ((slotOf beat col ch).measure : Rat) +
+      4 * ((rowOf (slotOf beat col ch).num (slotOf beat col ch).den dmax : Nat) : Rat) / (dmax : Rat) = beat :=
+  SM.slot_beat_exact beat col ch dmax hpos hd
+
+/-- **The note data scans back**: `"\n,\n".join("\n".join(rows))` read by the specification's scanner gives
+exactly the written measures and rows (rows over the note symbols: non-empty, no ',' / line break / surrounding
+whitespace). -/
+theorem scanRows_renderRows (ms : List (List Str)) (hne : ms ≠ []) (hc : ∀ rows ∈ ms, ∀ p ∈ rows, CleanRow p) :
+    scanRows (renderRows ms) = ms :=
+  SM.scanRows_renderRows ms hne hc
+
+/-- **The beats the writer slots are the true beats** (C10 `beats_run_exact`): when the chart's tempo list is the
+stored form of a tempo-change list `cs` in C10's domain with the 4-beat metronome, and every object time is on the
+snap grid (`OnGridAt`), `tm.beats(...)` returns the declarative beat position of every object. -/
+theorem written_beats_exact (t0 : Rat) (cs : List BcSnap)
+    (hwf : wfChanges cs = true) (hs : sortedSnaps cs = true) (h0 : firstAtZero cs = true)
+    (hgc : gridCompatible (grid defaultMaxDiv) cs = true) (hm : metronomeOk cs = true)
+    (hM : ∀ c ∈ cs, c.met = 4) (c : WChart) (hb : toTimingMap c.bpms = tmOf t0 cs)
+    (hts : ∀ t ∈ (writeOrder c.notes).map (·.1), OnGridAt (grid defaultMaxDiv) t0 cs t) :
+    beats defaultGrid (toTimingMap c.bpms) ((writeOrder c.notes).map (·.1)) =
+      .ok (((writeOrder c.notes).map (·.1)).map (beatAt t0 cs)) := by
+  rw [hb]
+  have hg : defaultGrid.toList = grid defaultMaxDiv := by simp [defaultGrid]
+  exact beats_run_exact defaultGrid (gridOK_grid (by decide)) t0 cs hwf hs h0 (by rw [hg]; exact hgc) hm 4 hM _
+    (by rw [hg]; exact hts)
+
+/-!
+`write_read_exact_partial` — what is still missing for the single statement "denote (write ms) = ms":
+* `timeAt t0 cs (position of beatAt t0 cs t) = t` (C10 has `beatAt` monotone/exact but not this inverse), so the
+  pieces above give *beats* (`written_beats_exact` ∘ `slot_beat_exact` ∘ `cells_no_collision` ∘ `scanRows_renderRows`:
+  the symbol of every object sits in the text at exactly its beat) but not yet *milliseconds*;
+* the inverse of `pairing_spec` (a head and its tail written to one column are paired again by the rule);
+* the header lines as text (only `#SELECTABLE` is proved) and `changesOf (written #BPMS) = cs` for measure-line tempos
+  (from `round6_exact`).
+The check evaluates the whole composition on every case (S).
+-/
 
 end Reamber.C03
